@@ -27,7 +27,8 @@ LEVEL = "model_checking"
 SHARDS = {"quick": 8, "thorough": 16}
 RULE = (
     "all schedules (preemption bound per tier) of 2-3 threads submitting 1-2 nonces from {x,y} to a real "
-    "NonceCache(capacity 1..3) + one clock-advance event of ttl-1 / ttl / ttl+1 placed at every position; "
+    "NonceCache(capacity 1..3) + one clock-advance event of ttl-1 / ttl / ttl+1 placed at every position (+ coarse "
+    "configurations with TWO free clock advances {1, ttl-1 / ttl} and points at clock reading / lock operations only); "
     "line-level scheduling points inside check_and_add/_sweep; non-trivial = schedule with >=1 choice point"
 )
 ASSUMPTIONS = [
@@ -53,7 +54,9 @@ def configs(ctx: Ctx) -> list[dict[str, Any]]:
             out.append({"cap": cap, "progs": [list(p) for p in progs], "adv": adv, "bound": 2, "env_cost": 1})
         # TWO clock advances (a short one that can fall between a thread's clock reading and its lock acquisition, and one
         # that carries the clock to the end of the earlier reading's window), free of charge, around a replay of x
-        out.append({"cap": 3, "progs": [["y"], ["x", "x"]], "adv": [1.0, TTL - 1], "bound": 2, "env_cost": 0})
+        # (three one-operation threads: the replay of x is a thread of its own, so one preemption - of the thread whose clock
+        # reading goes stale - is enough; points at clock reading and lock operations only; measured 10 860 schedules)
+        out.append({"cap": 3, "progs": [["y"], ["x"], ["x"]], "adv": [1.0, TTL - 1], "bound": 1, "env_cost": 0, "coarse": True})
         return out
     def add(cap: int, progs: Any, adv: Any, bound: int, env_cost: int) -> None:
         out.append({"cap": cap, "progs": [list(p) for p in progs], "adv": adv, "bound": bound, "env_cost": env_cost})
@@ -80,7 +83,7 @@ def configs(ctx: Ctx) -> list[dict[str, Any]]:
     # (2b) two clock advances (see the quick tier), both orders of magnitude, capacities 2 and 3
     for cap in (2, 3):
         for adv2 in ([1.0, TTL - 1], [TTL - 1, 1.0], [1.0, TTL]):
-            add(cap, (["y"], ["x", "x"]), adv2, 2, 0)
+            out.append({"cap": cap, "progs": [["y"], ["x"], ["x"]], "adv": adv2, "bound": 1, "env_cost": 0, "coarse": True})
     # (4) three preemptions
     for cap in (2, 3):
         for progs in progs2[:2]:
@@ -97,9 +100,14 @@ def make_setup(cfg: dict[str, Any]):
 
         def read_clock() -> float:
             t = s.current()
+            now = clk.now
             if t is not None and t.id in current:
-                current[t.id]["t"] = clk.now  # the reading this operation actually took
-            return clk.now
+                current[t.id]["t"] = now  # the reading this operation actually took
+            if cfg.get("coarse"):
+                # coarse configurations (no line tracing): the one place that matters is made a scheduling point - between
+                # an operation's clock reading and whatever it does next (lock acquisition, sweep, insert)
+                S.point("clock-read")
+            return now
 
         cache = NonceCache(ttl_seconds=TTL, capacity=cfg["cap"], clock=read_clock)
         cache._lock = S.CoopLock("nonce")  # type: ignore[assignment]
@@ -172,7 +180,7 @@ def run(ctx: Ctx) -> None:
         if not ctx.mine():
             continue
         st = S.explore(
-            ctx, make_setup(cfg), lambda x, cfg=cfg: oracle(ctx, cfg, x), bound=cfg["bound"], label=str(cfg), trace=TRACE,
+            ctx, make_setup(cfg), lambda x, cfg=cfg: oracle(ctx, cfg, x), bound=cfg["bound"], label=str(cfg), trace=None if cfg.get("coarse") else TRACE,
             env_cost=cfg.get("env_cost", 1),
         )
         ctx.extra["schedules"] += st["schedules"]
@@ -186,7 +194,7 @@ def run(ctx: Ctx) -> None:
 
 def replay(ctx: Ctx, case: dict[str, Any]) -> None:
     cfg = case["cfg"]
-    x = S.run_one(make_setup(cfg), case["choices"], None, trace=TRACE, env_cost=cfg.get("env_cost", 1))
+    x = S.run_one(make_setup(cfg), case["choices"], None, trace=None if cfg.get("coarse") else TRACE, env_cost=cfg.get("env_cost", 1))
     oracle(ctx, cfg, x)
 
 ENGINE = "E3-SCHED"
